@@ -248,7 +248,67 @@ LeafDump == <<PrintS(<<Var("g"), Var("h"), Var("b"), Var("s")>>)>>
 NestLeaf == {CaseOf("C01/nestleaf/" \o c \o "/" \o k, LeafPrelude \o Construct(c, 1, LeafOf(k, 1)) \o LeafDump) : c \in ConstructNames, k \in LeafKinds}
             \cup {CaseOf("C01/nestleaf2/" \o c1 \o "/" \o c2 \o "/" \o k, LeafPrelude \o Construct(c1, 1, Construct(c2, 2, LeafOf(k, 2))) \o LeafDump)
                   : c1 \in {"for3", "forcond", "swtag", "for3cont", "elifFT"}, c2 \in {"for3", "forinf", "swless", "swdeffirst", "ifelseF", "for3break"}, k \in (IF Quick THEN {"compound", "swap", "callvalue", "strappend", "nestedswitch"} ELSE LeafKinds)}
-All == NestLeaf \cup Reeval \cup JumpSites \cup OuterJump \cup TupleCases \cup NotCmp \cup NotOther \cup Arith1 \cup Arith2 \cup ArithVar \cup Arith3 \cup Logic2 \cup LogicNot \cup CmpInt \cup CmpStr \cup CmpBool \cup Mixed \cup StrConcat
+\* ---- an assignment whose target is an operand of its own right-hand side (round 9: a comparison that writes its result before it reads its operands)
+\* target type x expression in which the target occurs on the left, on the right, on both sides or under a wrapper x the value it has before x where
+\* the assignment stands (statement, twice in a row, increment of a loop, inside a function on a local and on a global)
+SelfExprs == <<
+  <<"bool", "eqL", CmpE("==", Var("t"), Var("u"))>>, <<"bool", "eqR", CmpE("==", Var("u"), Var("t"))>>, <<"bool", "neL", CmpE("!=", Var("t"), Var("u"))>>, <<"bool", "neTrue", CmpE("!=", Var("t"), BoolL(TRUE))>>,
+  <<"bool", "eqFalse", CmpE("==", BoolL(FALSE), Var("t"))>>, <<"bool", "eqSelf", CmpE("==", Var("t"), Var("t"))>>, <<"bool", "not", Not(Var("t"))>>, <<"bool", "notgrp", Not(Grp(CmpE("==", Var("t"), Var("u"))))>>,
+  <<"bool", "andL", Lgc("&&", Var("t"), Var("u"))>>, <<"bool", "orR", Lgc("||", Var("u"), Var("t"))>>, <<"bool", "cmpint", CmpE("==", Var("t"), CmpE("<", Var("n"), IntL("3")))>>,
+  <<"bool", "grp", Grp(CmpE("!=", Grp(Var("t")), Var("u")))>>,
+  <<"int", "addL", Bin("+", Var("t"), Var("u"))>>, <<"int", "subR", Bin("-", Var("u"), Var("t"))>>, <<"int", "double", Bin("+", Var("t"), Var("t"))>>, <<"int", "mix", Bin("-", Bin("*", Var("t"), IntL("3")), Var("t"))>>,
+  <<"int", "divR", Bin("/", IntL("100"), Var("t"))>>, <<"int", "modL", Bin("%", Var("t"), IntL("4"))>>, <<"int", "neg", Bin("-", IntL("0"), Var("t"))>>,
+  <<"string", "catL", Bin("+", Var("t"), Var("u"))>>, <<"string", "catR", Bin("+", Var("u"), Var("t"))>>, <<"string", "double", Bin("+", Var("t"), Var("t"))>>, <<"string", "itoa", Bin("+", Var("t"), Itoa(Var("n")))>>,
+  <<"string", "wrap", Bin("+", Bin("+", StrL("<"), Var("t")), StrL(">"))>> >>
+SelfVals(ty) == CASE ty = "bool" -> <<<<BoolL(TRUE), BoolL(TRUE)>>, <<BoolL(TRUE), BoolL(FALSE)>>, <<BoolL(FALSE), BoolL(TRUE)>>, <<BoolL(FALSE), BoolL(FALSE)>>>>
+                  [] ty = "int" -> <<<<IntL("7"), IntL("2")>>, <<IntL("-5"), IntL("9")>>>>
+                  [] ty = "string" -> <<<<StrL("ab"), StrL("c d")>>, <<StrL(""), StrL("x")>>>>
+SelfWhere == {"stmt", "twice", "postloop", "local", "global", "branch"}
+SelfDump == PrintS(<<Var("t"), Var("u"), Var("n")>>)
+SelfProg(w, e, v) ==
+  LET asg == Asg1("t", e) IN
+  CASE w = "stmt"     -> <<Def(<<"t", "u", "n">>, <<v[1], v[2], IntL("2")>>), asg, SelfDump>>
+    [] w = "twice"    -> <<Def(<<"t", "u", "n">>, <<v[1], v[2], IntL("2")>>), asg, SelfDump, asg, SelfDump, Asg1("u", Var("t")), asg, SelfDump>>
+    [] w = "postloop" -> <<Def(<<"u", "n">>, <<v[2], IntL("2")>>), For3(Def1("t", v[1]), CmpE("<", Var("n"), IntL("5")), asg, <<SelfDump, Inc("n")>>)>>
+    [] w = "local"    -> <<Func("f", <<Param("t0", IF v[1].k = "bool" THEN "bool" ELSE IF v[1].k = "int" THEN "int" ELSE "string")>>, <<>>,
+                                <<Def(<<"t", "u", "n">>, <<Var("t0"), v[2], IntL("2")>>), asg, SelfDump, asg, SelfDump>>), ExprS(CallE("f", <<v[1]>>))>>
+    [] w = "global"   -> <<Def(<<"t", "u", "n">>, <<v[1], v[2], IntL("2")>>), Func("f", <<>>, <<>>, <<asg>>), ExprS(CallE("f", <<>>)), SelfDump, ExprS(CallE("f", <<>>)), SelfDump>>
+    [] w = "branch"   -> <<Def(<<"t", "u", "n">>, <<v[1], v[2], IntL("2")>>), IfElse(CmpE("<", Var("n"), IntL("3")), <<asg>>, <<Lbl("no")>>), SelfDump,
+                           Switch(Var("n"), <<CaseB(IntL("2"), <<asg>>)>>, <<>>, FALSE), SelfDump>>
+SelfAssignLegal == {CaseOf("C01/selfassign/" \o SelfExprs[i][1] \o "/" \o SelfExprs[i][2] \o "/" \o w \o "/" \o ToString(k), SelfProg(w, SelfExprs[i][3], SelfVals(SelfExprs[i][1])[k]))
+               : i \in 1..Len(SelfExprs), w \in SelfWhere, k \in 1..2}
+               \cup {CaseOf("C01/selfassign/" \o SelfExprs[i][1] \o "/" \o SelfExprs[i][2] \o "/" \o w \o "/" \o ToString(k), SelfProg(w, SelfExprs[i][3], SelfVals(SelfExprs[i][1])[k]))
+               : i \in {j \in 1..Len(SelfExprs) : SelfExprs[j][1] = "bool"}, w \in SelfWhere, k \in 3..4}
+
+\* ---- a guard (`if g { break / continue }`) as the LAST statement of a branch that has an else / else-if behind it, after a nested construct that
+\* ran earlier in the same branch (round 9, Batch: the nested construct's jump leaves the block, the branch's closing jump was dropped, `) else (` is read as a remark)
+GTNested == {"none", "if", "ifelse", "for3", "forcond", "switch", "call"}
+GTNest(k) == CASE k = "none" -> <<>> [] k = "if" -> <<If1(CmpE(">=", Var("i"), IntL("0")), <<PrintS(<<StrL("in"), Var("i")>>)>>)>>
+               [] k = "ifelse" -> <<IfElse(CmpE("==", Var("i"), IntL("1")), <<Lbl("one")>>, <<Lbl("not one")>>)>>
+               [] k = "for3" -> <<For3(Def1("j", IntL("0")), CmpE("<", Var("j"), IntL("2")), Inc("j"), <<PrintS(<<StrL("j"), Var("j")>>)>>)>>
+               [] k = "forcond" -> <<Def1("j", IntL("0")), ForCond(CmpE("<", Var("j"), IntL("2")), <<Inc("j")>>), PrintS(<<StrL("j"), Var("j")>>)>>
+               [] k = "switch" -> <<Switch(Var("i"), <<CaseB(IntL("0"), <<Lbl("zero")>>), CaseB(IntL("1"), <<Lbl("uno")>>)>>, <<Lbl("many")>>, TRUE)>>
+               [] k = "call" -> <<PrintS(<<CallE("twice", <<Var("i")>>)>>)>>
+GTTails == {"else", "elif", "elifelse"}
+GTJumps == {"break", "continue", "return"}
+GTBody(nk, tail, j, gv) ==
+  LET J == IF j = "break" THEN BreakS ELSE IF j = "continue" THEN ContinueS ELSE RetS(<<Bin("+", Var("i"), IntL("100"))>>)
+      first == GTNest(nk) \o <<If1(CmpE("==", Var("i"), IntL(gv)), <<J>>)>>
+      brs == IF tail = "else" THEN <<Branch(CmpE("<", Var("i"), IntL("2")), first)>>
+             ELSE <<Branch(CmpE("<", Var("i"), IntL("2")), first), Branch(CmpE("==", Var("i"), IntL("2")), <<PrintS(<<StrL("elif"), Var("i")>>)>>)>>
+      els == IF tail = "elif" THEN <<>> ELSE <<PrintS(<<StrL("else"), Var("i")>>)>>
+  IN <<If(brs, els), PrintS(<<StrL("after"), Var("i")>>)>>
+GTProg(nk, tail, j, gv, lf) ==
+  LET body == GTBody(nk, tail, j, gv)
+      loop == CASE lf = "for3" -> <<For3(Def1("i", IntL("0")), CmpE("<", Var("i"), IntL("4")), Inc("i"), body)>>
+                [] lf = "forcond" -> <<Def1("i", IntL("-1")), ForCond(CmpE("<", Var("i"), IntL("3")), <<Inc("i")>> \o body)>>
+      tw == Func("twice", <<Param("n", "int")>>, <<"int">>, <<RetS(<<Bin("*", Var("n"), IntL("2"))>>)>>)
+  IN IF j = "return" THEN <<tw, Func("run", <<>>, <<"int">>, loop \o <<Lbl("loop left"), RetS(<<IntL("-1")>>)>>), PrintS(<<StrL("returned"), CallE("run", <<>>)>>), Lbl("end")>>
+     ELSE <<tw>> \o loop \o <<Lbl("end")>>
+GuardTail == {CaseOf("C01/guardtail/" \o nk \o "/" \o tail \o "/" \o j \o "/" \o gv \o "/" \o lf, GTProg(nk, tail, j, gv, lf))
+              : nk \in GTNested, tail \in GTTails, j \in GTJumps, gv \in {"1", "7"}, lf \in {"for3", "forcond"}}
+
+All == SelfAssignLegal \cup GuardTail \cup NestLeaf \cup Reeval \cup JumpSites \cup OuterJump \cup TupleCases \cup NotCmp \cup NotOther \cup Arith1 \cup Arith2 \cup ArithVar \cup Arith3 \cup Logic2 \cup LogicNot \cup CmpInt \cup CmpStr \cup CmpBool \cup Mixed \cup StrConcat
        \cup Nest1 \cup Nest2 \cup Seq2 \cup Nest3 \cup DefCases \cup CompoundCases \cup IncDecCases \cup PanicAt \cup ItoaCases \cup PrintCases
 ASSUME ndJsonSerialize("fam.ndjson", SetToSeq(All))
 =============================================================================
